@@ -88,9 +88,17 @@ def make_scn_workload(scn, rec):
             for k, pd in self.by_tick.get(self.t, []):
                 p = Pipeline(pd.get("id", "p%d" % k), Priority[pd["prio"]])
                 rops = []
+                scratch = []
                 for od in pd["ops"]:
-                    op = p.new_operator([rops[j] for j in od.get("par", [])] or None)
+                    if pd.get("scratch_parents") and od.get("par"):
+                        scratch[:] = [rops[j] for j in od["par"]]
+                        op = p.new_operator(scratch)
+                        scratch[:] = []
+                    else:
+                        op = p.new_operator([rops[j] for j in od.get("par", [])] or None)
                     for (b, law, mem, read) in od["segs"]:
+                        if od.get("law_as_callable"):
+                            law = Segment.SCALING_FUNCS[law]      # the public API also takes the law's function
                         op.add_segment(Segment(baseline_cpu_seconds=float(b), cpu_scaling=law,
                                                memory_gb=None if mem is None else float(mem),
                                                storage_read_gb=float(read)))
